@@ -114,18 +114,32 @@ func verifRender(v any, mode int, ph *int) []byte {
 		}
 		return list(len(x), func(i int) any { return x[i] })
 	case map[string]any:
-		// the harness uses single-key maps: no ordering question
+		// keys in sorted order, as encoding/json writes them
 		out := []byte{'{'}
-		for k, e := range x {
+		for i, k := range verifSortedKeys(len(x), func(yield func(string)) {
+			for k := range x {
+				yield(k)
+			}
+		}) {
+			if i > 0 {
+				out = append(out, ',')
+			}
 			out = append(append(out, verifEscape(k)...), ':')
-			out = append(out, verifRender(e, mode, ph)...)
+			out = append(out, verifRender(x[k], mode, ph)...)
 		}
 		return append(out, '}')
 	case map[string]Binary:
 		out := []byte{'{'}
-		for k, e := range x {
+		for i, k := range verifSortedKeys(len(x), func(yield func(string)) {
+			for k := range x {
+				yield(k)
+			}
+		}) {
+			if i > 0 {
+				out = append(out, ',')
+			}
 			out = append(append(out, verifEscape(k)...), ':')
-			out = append(out, verifRender(e, mode, ph)...)
+			out = append(out, verifRender(x[k], mode, ph)...)
 		}
 		return append(out, '}')
 	case verifWS:
@@ -159,6 +173,18 @@ func verifRender(v any, mode int, ph *int) []byte {
 	}
 	verifAssert(false, "harness: verifRender reached a shape it does not know")
 	return nil
+}
+
+// verifSortedKeys collects the keys of a map and sorts them (insertion sort: the maps of the menu have at most 2 keys).
+func verifSortedKeys(n int, each func(yield func(string))) []string {
+	keys := make([]string, 0, n)
+	each(func(k string) { keys = append(keys, k) })
+	for i := 1; i < len(keys); i++ {
+		for j := i; j > 0 && keys[j] < keys[j-1]; j-- {
+			keys[j], keys[j-1] = keys[j-1], keys[j]
+		}
+	}
+	return keys
 }
 
 // verifWalkJSON is the JSON library handed to the parser: Marshal/Encode render structurally (mode JSON); Unmarshal
@@ -251,11 +277,40 @@ func verifWalkShape(shape int, b1, b2 Binary) (held any, leaves []Binary, wantEr
 		return map[string]any{"k": map[string]any{"j": b1}}, []Binary{b1}, false
 	case 14: // struct value (not a pointer) with a Binary inside an interface field and behind a pointer
 		return verifWS3{P: &verifWS{B: b1, N: 3}, I: b2}, []Binary{b1, b2}, false
+	case 15: // map with TWO binary entries (the walk visits them in Go's map order: see verifWalkUnordered)
+		return map[string]any{"a": b1, "b": b2}, []Binary{b1, b2}, false
+	case 16:
+		return map[string]Binary{"a": b1, "b": b2}, []Binary{b1, b2}, false
 	}
 	return nil, nil, false
 }
 
-const verifWalkShapes = 15
+const verifWalkShapes = 17
+
+// verifWalkUnordered: shapes whose leaves are visited in an order Go leaves unspecified (maps with several entries): the
+// placeholder numbers then depend on that order, so the oracle compares attachments as a multiset and checks that
+// placeholder n designates attachment n through the decoder (C09_walk_rt) rather than comparing the first frame literally.
+func verifWalkUnordered(shape int) bool { return shape == 15 || shape == 16 }
+
+// verifSameFrames: frame-by-frame equality; for shapes with an unspecified walk order the same number of frames, a first
+// frame of the same length and the same attachments as a multiset.
+func verifSameFrames(shape int, a, b [][]byte) bool {
+	if len(a) != len(b) {
+		return false
+	}
+	if !verifWalkUnordered(shape) {
+		for i := range a {
+			if !verifEqBytes(a[i], b[i]) {
+				return false
+			}
+		}
+		return true
+	}
+	if len(a) != 3 || len(a[0]) != len(b[0]) {
+		return false
+	}
+	return (verifEqBytes(a[1], b[1]) && verifEqBytes(a[2], b[2])) || (verifEqBytes(a[1], b[2]) && verifEqBytes(a[2], b[1]))
+}
 
 // C09_walk: for each argument tree of the menu, with ANY bytes in its Binary leaves (each 0..2 bytes, 0..3 thorough):
 // Encode produces exactly the Socket.IO v5 frames (header "5<n>-", the JSON text with the n-th leaf replaced by
@@ -297,9 +352,16 @@ func verifH_C09_walk() {
 		return
 	}
 	want := append(verifRefHeader(parser.PacketTypeBinaryEvent, len(leaves), "/", nil), ref...)
-	verifAssert(verifEqBytes(bufs[0], want), "the first frame is 5<n>-<json> with the n-th Binary leaf replaced by its placeholder")
-	for i := range leaves {
-		verifAssert(verifEqBytes(bufs[1+i], orig[i]), "attachment i is byte-identical to the i-th Binary leaf")
+	if !verifWalkUnordered(shape) {
+		verifAssert(verifEqBytes(bufs[0], want), "the first frame is 5<n>-<json> with the n-th Binary leaf replaced by its placeholder")
+		for i := range leaves {
+			verifAssert(verifEqBytes(bufs[1+i], orig[i]), "attachment i is byte-identical to the i-th Binary leaf")
+		}
+	} else {
+		verifAssert(len(bufs[0]) == len(want), "the first frame has the length of 5<n>-<json> with every Binary leaf replaced by a placeholder")
+		fwd := verifEqBytes(bufs[1], orig[0]) && verifEqBytes(bufs[2], orig[1])
+		rev := verifEqBytes(bufs[1], orig[1]) && verifEqBytes(bufs[2], orig[0])
+		verifAssert(fwd || rev, "the attachments are the Binary leaves, each once, byte-identical")
 	}
 
 	after := verifRender(held, verifModeSnap, nil)
@@ -312,10 +374,7 @@ func verifH_C09_walk() {
 	if err2 != nil {
 		return
 	}
-	same := len(bufs2) == len(bufs)
-	for i := 0; same && i < len(bufs); i++ {
-		same = verifEqBytes(bufs[i], bufs2[i])
-	}
+	same := verifSameFrames(shape, bufs, bufs2)
 	verifAssert(same, "emitting the same value again yields the same frames")
 	// the header is a value given to Encode too: a packet kept for later (connection state recovery keeps header and
 	// values of every broadcast) is encoded again with the SAME header object
@@ -326,10 +385,7 @@ func verifH_C09_walk() {
 	if err3 != nil {
 		return
 	}
-	same = len(bufs3) == len(bufs)
-	for i := 0; same && i < len(bufs); i++ {
-		same = verifEqBytes(bufs[i], bufs3[i])
-	}
+	same = verifSameFrames(shape, bufs, bufs3)
 	verifAssert(same, "and yields the same frames")
 	verifReach("end")
 }
